@@ -86,6 +86,14 @@ def jobs(tier, seed):
                 yp = [rnd.randint(0, 1) for _ in range(n)]
                 js.append({"id": f"{fam}-n{n}-{''.join(map(str, g))}-conc", "kind": "rates", "family": fam, "n": n, "groups": list(g),
                            "weighted": True, "labels": [yt, yp]})
+    # the {-1,+1} coding of binary labels/predictions (documented for the base metrics; the positive class is still 1)
+    enc = []
+    for fam in ("dp", "eop", "eo"):
+        for g in ((0, 1), (0, 0)) if tier == "quick" else ((0, 1), (0, 0), (0, 1, 1), (0, 1, 2)):
+            for wt in (False, True):
+                enc.append({"id": f"{fam}-n{len(g)}-{''.join(map(str, g))}-{'w' if wt else 'nw'}-m11", "kind": "rates", "family": fam, "n": len(g),
+                            "groups": list(g), "weighted": wt, "labels": None, "neg": -1})
+    js = enc + js
     for n in (2, 3):
         for g in core.rgs(n, 3):
             for c in range(4):
@@ -94,9 +102,12 @@ def jobs(tier, seed):
 
 
 # ---- oracle ------------------------------------------------------------------------------------------
+NEG = [0]  # value of the negative class in the current job: 0, or -1 for the {-1,+1} coding the base metrics document
+
+
 def _rate(kind, rows, yt, yp, w):
     is1 = lambda v: stubs.eq_term(v, 1)
-    is0 = lambda v: stubs.eq_term(v, 0)
+    is0 = lambda v: stubs.eq_term(v, NEG[0])
     num_c, den_c = {
         "sel": (lambda i: is1(yp[i]), lambda i: z3.BoolVal(True)),
         "tpr": (lambda i: z3.And(is1(yt[i]), is1(yp[i])), lambda i: is1(yt[i])),
@@ -159,10 +170,16 @@ def run_job(job, deadline):
     if job["kind"] == "derived":
         return _run_derived(job, acc, deadline)
 
+    NEG[0] = job.get("neg", 0)
+    stubs.LABEL_DOMAIN[0] = [NEG[0], 1]
+
     def mk():
         if job["labels"] is None:
-            yt = [integer(f"yt{i}", 0, 1) for i in range(n)]
-            yp = [integer(f"yp{i}", 0, 1) for i in range(n)]
+            yt = [integer(f"yt{i}", NEG[0], 1) for i in range(n)]
+            yp = [integer(f"yp{i}", NEG[0], 1) for i in range(n)]
+            if NEG[0] != 0:
+                for v in yt + yp:
+                    core.cur().assume(v.e != 0)
         else:
             yt, yp = list(job["labels"][0]), list(job["labels"][1])
         w = [real(f"w{i}", 0, None, lo_strict=True) for i in range(n)] if job["weighted"] else None
@@ -314,9 +331,10 @@ def _conc_oracle(kind, transform, method, agg, groups, yt, yp, w):
     gl = sorted(set(groups))
 
     def rate(k, rows):
+        ng = NEG[0]
         num_c, den_c = {"sel": (lambda i: yp[i] == 1, lambda i: True), "tpr": (lambda i: yt[i] == 1 and yp[i] == 1, lambda i: yt[i] == 1),
-                        "fnr": (lambda i: yt[i] == 1 and yp[i] == 0, lambda i: yt[i] == 1), "fpr": (lambda i: yt[i] == 0 and yp[i] == 1, lambda i: yt[i] == 0),
-                        "tnr": (lambda i: yt[i] == 0 and yp[i] == 0, lambda i: yt[i] == 0)}[k]
+                        "fnr": (lambda i: yt[i] == 1 and yp[i] == ng, lambda i: yt[i] == 1), "fpr": (lambda i: yt[i] == ng and yp[i] == 1, lambda i: yt[i] == ng),
+                        "tnr": (lambda i: yt[i] == ng and yp[i] == ng, lambda i: yt[i] == ng)}[k]
         num = sum((Fr(w[i]) for i in rows if num_c(i)), Fr(0))
         den = sum((Fr(w[i]) for i in rows if den_c(i)), Fr(0))
         return float(num / den) if den else 0.0
@@ -354,6 +372,7 @@ def replay(cex):
     labels = ["g%d" % g for g in groups]
     if job["kind"] == "derived":
         return _replay_derived(cex)
+    NEG[0] = job.get("neg", 0)
     if job["labels"] is None:
         yt = [int(F(mdl[f"yt{i}"])) for i in range(n)]
         yp = [int(F(mdl[f"yp{i}"])) for i in range(n)]
